@@ -455,6 +455,12 @@ impl BitVector {
                     self.blocks[last_block_index] &= mask;
                 }
             }
+
+            // Clear the whole blocks past the new end (unused bits must stay 0)
+            let used_blocks = (new_len + BITS_PER_BLOCK - 1) / BITS_PER_BLOCK;
+            for i in used_blocks..self.blocks.len() {
+                self.blocks[i] = 0;
+            }
         }
 
         Ok(())
